@@ -205,6 +205,9 @@ func runSolver(s solverSpec, file string, timeout int) (verdict, output string, 
 	secs = time.Since(t0).Seconds()
 	output = string(out)
 	verdict = ""
+	if strings.Contains(output, "(error") {
+		return "error", output, secs
+	}
 	for _, line := range strings.Split(output, "\n") {
 		line = strings.TrimSpace(line)
 		if line == "unsat" || line == "sat" || line == "unknown" || line == "timeout" {
@@ -274,7 +277,9 @@ func solveOne(o *Obligation, file string, timeout int, thorough bool) {
 			log = append(log, fmt.Sprintf("%s: %s (%.2fs)", s.name, v, secs))
 			if v == "error" {
 				log = append(log, firstLines(out, 6))
-				continue
+				o.Status = "unknown"
+				o.Output = strings.Join(log, "\n")
+				return
 			}
 			if v == "unsat" {
 				refuted = true
